@@ -143,6 +143,15 @@ PROFILES = {
                "leading_binders": "(cgNew : List Generic → CG) (cgVisit : CG → WherePredicate → CG) (cgUsed : CG → List Generic)", "leading_args": "cgNew cgVisit cgUsed",
                "extern_calls": {"CheckGenerics::new": "cgNew"}, "extern_methods": {"used": "cgUsed"},
                "mut_visitor_methods": {"visit_where_predicate": "cgVisit"}, "newtype_fields": ["predicates"]},
+    # `extract_return_type` (C16): the type a query's signature returns on success, read off `Result<T, _>` / `StdResult<T>` written
+    # with or without a path; `emit_error!` is a diagnostic appended to the list the function returns next to its value
+    "rettype": {"src": ("sylvia-derive", "src", "utils.rs"), "out": "RetTypeFns.lean", "ns": "Extracted.RetTypeFns",
+                "imports": ["Sylvia.Model.RustSem", "Sylvia.Model.RustExtern"], "opens": "open RustSem RustExtern.SynTy",
+                "vars": "", "str": "String", "only": ["extract_return_type"], "only_enums": [], "only_structs": [], "diags": True,
+                "extern_types": {"ReturnType": "ReturnType", "Path": "Path"},
+                "extern_enum_fields": {"ReturnType": {"Default": [], "Type": ["_", "_"]}, "Type": {"Path": ["_"], "Other": []},
+                                       "PathArguments": {"None": [], "AngleBracketed": ["_"], "Parenthesized": []},
+                                       "GenericArgument": {"Type": ["_"], "Other": []}}},
     # the bridge to chain-custom types (C11): `IntoMsg::into_msg` and `IntoResponse::into_response`, trait methods on cosmwasm_std's
     # SubMsg / Response (declared in Sylvia/Model/RustExtern.lean); arms compiled under `#[cfg(feature = "..")]` become
     # `if feat ".." then <arm> else <the wildcard arm>`, so the regenerated function is the code under every feature set at once
@@ -332,7 +341,8 @@ class FnTr:
                 for s_, ft in zip(subs, fields):
                     if s_[0] == "pid":
                         self.types[s_[1]] = ft
-                    out.append(self.pat(s_))
+                    sp = self.pat(s_)
+                    out.append("(%s)" % sp if " " in sp and not sp.startswith("(") else sp)
                 return "." + path[1] + "".join(" " + o for o in out)
             raise Unsupported("tuple-struct pattern %s" % path)
         if k == "pstruct":
@@ -514,6 +524,13 @@ class FnTr:
                 return self.ex(e[1], lambda r: k("(toStr %s)" % r))
             if name in ("to_owned", "clone") and not e[3]:
                 return self.ex(e[1], k)
+            if name == "last" and not e[3]:
+                return self.ex(e[1], lambda r: k("(List.getLast? %s)" % r))
+            if name == "unwrap" and not e[3] and self.mod.profile.get("diags"):
+                def kuo(r):
+                    v = hint or self.fresh()
+                    return ["(unwrapOpt %s).bind fun %s =>" % (r, v)] + k(v)
+                return self.ex(e[1], kuo)
             if name in ("as_ref", "copied", "cloned") and not e[3]:
                 return self.ex(e[1], k)
             if name == "find" and len(e[3]) == 1 and e[3][0][0] == "closure" and len(e[3][0][1]) == 1:
@@ -782,6 +799,10 @@ class FnTr:
                         return rest()
                     return ["let %s := %s" % (x, v)] + rest()
                 return self.ex(init, kl, hint=x)
+            if st[0] == "sletelse":
+                pat, init, els = st[1], st[2], st[3]
+                # `let PAT = init else { diverge };`
+                return self.ex(init, lambda v: ["match %s with" % v, "| %s =>" % self.pat(pat)] + ind(rest()) + ["| _ =>"] + ind(self.stmt_block(els, ctx, lambda: [".panic"])))
             if st[0] == "sexpr":
                 e, semi = st[1], st[2]
                 if last and not semi and kval is not None and e[0] not in ("while", "for_range", "for", "return", "continue", "panic"):
@@ -841,6 +862,12 @@ class FnTr:
             return ctx["continue"]()
         if t == "panic":
             return [".panic"]
+        if t == "assert":
+            return self.ex(e[1], lambda v: ["if %s then" % v] + ind(rest()) + ["else", "  .panic"])
+        if t == "emit_error":
+            if not self.mod.profile.get("diags"):
+                raise Unsupported("emit_error! outside a profile that returns diagnostics")
+            return ["let diags := diags ++ [%s]" % lean_str(e[1])] + rest()
         if t == "call":
             return self.ex(e, lambda v: rest(), hint="_")
         if t == "mcall" and e[2] == "push" and len(e[3]) == 1 and e[1][0] == "field" and e[1][1] == ["path", ["self"]]:
@@ -1021,7 +1048,9 @@ class FnTr:
     # ------------------------------------------------------------------ whole function
     def translate(self):
         body = self.fn["body"]
-        if self.mut_self:
+        if self.mod.profile.get("diags"):
+            lines = ["let diags : List String := []"] + self.block(body, None, kval=lambda v: [".ok (%s, diags)" % v], kend=lambda: [".ok ((), diags)"])
+        elif self.mut_self:
             lines = self.block(body, None, kval=None, kend=lambda: [".ok self"])
         else:
             lines = self.block(body, None, kval=lambda v: [".ok %s" % v], kend=lambda: [".ok ()"])
@@ -1328,7 +1357,8 @@ class ModTr:
             binders = (pr["leading_binders"] + " " if pr.get("leading_binders") else "") + ("(fuel0 : Nat) " if name in self.fuel else "") + " ".join("(%s : %s)" % (v, ft.types[v]) for v in ft.generics + ft.params)
             if name in self.method_notes:
                 text += ["/-- compiled under: %s -/" % ", ".join(self.method_notes[name])]
-            text += ["def %s %s : Res %s :=" % (name, binders, FnTr.paren_ty(ft.ret))] + ind(lines) + [""]
+            rty = FnTr.paren_ty(ft.ret) if not pr.get("diags") else "(%s × List String)" % ft.ret
+            text += ["def %s %s : Res %s :=" % (name, binders, rty)] + ind(lines) + [""]
             # loop functions that (transitively) use cmp_str take it as an explicit first argument outside their own body
             for l in text:
                 for lp in ft.loops:
